@@ -176,6 +176,9 @@ bool Component::ComponentImpl::performTestWithHistory(History &history, const Co
 bool Component::doAddComponent(const ComponentPtr &component)
 {
     auto newParent = shared_from_this();
+    if (newParent == component) {
+        return false;
+    }
     bool hasParent = component->hasParent();
     if (hasParent) {
         if (hasAncestor(component)) {
